@@ -1211,10 +1211,42 @@ impl DhtNetworkManager {
             hex::encode(key)
         );
 
-        let mut seen_peer_ids: HashSet<String> = HashSet::new();
+        // A peer is identified by its DHT key: the routing table files it under that key
+        // (rendered as hex), the connected-peer book under its transport peer id. Listing
+        // both would hand out the same peer twice under two identifiers.
+        let mut seen_keys: HashSet<Key> = HashSet::new();
         let mut all_nodes: Vec<DHTNode> = Vec::new();
 
-        // 1. Check local routing table
+        // 1. Connected peers, under the peer id the transport knows them by
+        {
+            let peers = self.dht_peers.read().await;
+            for (peer_id, peer_info) in peers.iter() {
+                if !peer_info.is_connected {
+                    continue;
+                }
+                if self.is_local_peer_id(peer_id)
+                    || peer_info.dht_key == *self.local_dht_key.as_bytes()
+                {
+                    continue;
+                }
+                let address = match peer_info.addresses.first() {
+                    Some(a) => a.to_string(),
+                    None => continue,
+                };
+                if !seen_keys.insert(peer_info.dht_key) {
+                    continue;
+                }
+                all_nodes.push(DHTNode {
+                    peer_id: peer_id.clone(),
+                    address,
+                    distance: Some(peer_info.dht_key.to_vec()),
+                    reliability: peer_info.reliability_score,
+                    cached_dht_key: Some(DhtKey::from_bytes(peer_info.dht_key)),
+                });
+            }
+        }
+
+        // 2. Routing-table entries for peers not already listed
         {
             let dht_guard = self.dht.read().await;
             match dht_guard.find_nodes(&DhtKey::from_bytes(*key), count).await {
@@ -1224,47 +1256,21 @@ impl DhtNetworkManager {
                         if self.is_local_peer_id(&id) {
                             continue;
                         }
-                        if seen_peer_ids.insert(id.clone()) {
-                            all_nodes.push(DHTNode {
-                                peer_id: id,
-                                address: node.address,
-                                distance: None,
-                                reliability: node.capacity.reliability_score,
-                                cached_dht_key: Some(DhtKey::from_bytes(*node.id.as_bytes())),
-                            });
+                        if !seen_keys.insert(*node.id.as_bytes()) {
+                            continue;
                         }
+                        all_nodes.push(DHTNode {
+                            peer_id: id,
+                            address: node.address,
+                            distance: None,
+                            reliability: node.capacity.reliability_score,
+                            cached_dht_key: Some(DhtKey::from_bytes(*node.id.as_bytes())),
+                        });
                     }
                 }
                 Err(e) => {
                     warn!("find_nodes failed for key {}: {e}", hex::encode(key));
                 }
-            }
-        }
-
-        // 2. Add connected peers
-        {
-            let peers = self.dht_peers.read().await;
-            for (peer_id, peer_info) in peers.iter() {
-                if !peer_info.is_connected {
-                    continue;
-                }
-                if self.is_local_peer_id(peer_id) {
-                    continue;
-                }
-                if !seen_peer_ids.insert(peer_id.clone()) {
-                    continue;
-                }
-                let address = match peer_info.addresses.first() {
-                    Some(a) => a.to_string(),
-                    None => continue,
-                };
-                all_nodes.push(DHTNode {
-                    peer_id: peer_id.clone(),
-                    address,
-                    distance: Some(peer_info.dht_key.to_vec()),
-                    reliability: peer_info.reliability_score,
-                    cached_dht_key: Some(DhtKey::from_bytes(peer_info.dht_key)),
-                });
             }
         }
 
